@@ -1040,6 +1040,13 @@ impl Gen {
       let n = self.rng.pick(&[rem, rem + 1, rem.saturating_sub(1), rem / 2, 1, rnd]);
       self.alloc_fill(n);
     }
+    // a request whose end would wrap around 2^32 must still be refused after the capacity changed
+    if self.rng.chance(15) {
+      let h = self.fresh_h();
+      let n = u32::MAX as u64 - self.rng.pick(&[0u64, 1, 7, 50, 4096]);
+      let line = if self.rng.chance(50) { format!("alloc_bytes {h} {n}") } else { format!("alloc_aligned {h} 8 8 {n}") };
+      self.emit(line);
+    }
     // the moved memory must still honour the configured maximum alignment
     if self.rng.chance(60) {
       let a = (self.cfg.as_ref().map(|c| c.maxalign as u64).unwrap_or(8)).clamp(8, 64);
